@@ -55,6 +55,13 @@ def run_models(ctx, rng, N):
         wide = bool(rng.random() < 0.15)
         if wide:
             p1 = n + 2
+        many = (i // len(names)) % 3 == 2 and not sp.ordered
+        if many:
+            # many features per field and few modes: the exact solver that was asked for must be the one that answers
+            # (a randomised back-end with its 10 oversampling vectors is not exact here)
+            wide = False
+            n = int(rng.integers(60, 80))
+            p1, p2 = int(rng.integers(30, 40)), int(rng.integers(30, 40))
         X = Z.data2d(rng, n, p1, "x", cplx=sp.cplx, red=sp.ordered)
         Y = Z.data2d(rng, n, p2, "y", cplx=sp.cplx, red=sp.ordered)
         # fields in small or large physical units (the statements are about the data as given)
@@ -78,9 +85,9 @@ def run_models(ctx, rng, N):
         else:
             alpha = {"MCA": [1, 1], "ComplexMCA": [1, 1], "HilbertMCA": [1, 1], "CCA": [0, 0], "RDA": [0, 1]}[name]
         rank = min(p1, p2, n - 1)
-        k = int(rng.integers(1, max(2, rank)))
+        k = int(rng.integers(1, max(2, rank))) if not many else int(rng.integers(1, 4))
         replay = dict(kind="cross", cls=name, kw=kw, k=k, X=np.asarray(X.values), Y=np.asarray(Y.values), y_time=np.asarray(Y.time.values))
-        ctx.case(("c09", name, n, p1, p2, k, str(kw), i), nontrivial=n >= 6, tag="%s/alpha=%s/pca=%s" % (name, alpha, npca if use_pca else "off"),
+        ctx.case(("c09", name, n, p1, p2, k, str(kw), i), nontrivial=n >= 6, tag="%s/alpha=%s/pca=%s%s" % (name, alpha, npca if use_pca else "off", "/many-features" if many else ""),
                  sample=dict(cls=name, shapes=[[n, p1], [n, p2]], k=k, kw=kw))
         try:
             m = sp.make(k, **kw)
